@@ -278,12 +278,24 @@ func zzBoot(db *zzDB, km *zzKM, parser *zzParser, dec *zzDecrypter) *zzNode {
 	return &zzNode{db: db, km: km, store: st, eh: eh, parser: parser, dec: dec}
 }
 
+// zzSameIDs: the same operators, in any order (a cluster is identified by the sorted operator list)
 func zzSameIDs(a, b []uint64) bool {
 	if len(a) != len(b) {
 		return false
 	}
-	for i := range a {
-		if a[i] != b[i] {
+	for _, x := range a {
+		na, nb := 0, 0
+		for _, y := range a {
+			if y == x {
+				na++
+			}
+		}
+		for _, y := range b {
+			if y == x {
+				nb++
+			}
+		}
+		if na != nb {
 			return false
 		}
 	}
@@ -296,6 +308,7 @@ var zzIDLists = [][]uint64{
 	{1, 2, 3},    // not 3f+1
 	{1, 2, 2, 4}, // duplicate
 	{1, 2, 3, 9}, // unknown operator
+	{2, 1, 4, 3}, // valid, own operator inside, NOT in ascending order (share data is positional)
 }
 
 // zzGenEvent builds one symbolic registry event, appends it to the parser table and returns its log.
@@ -319,15 +332,23 @@ func zzGenEvent(p *zzParser, ref *zzRef, kindsAllowed int) ethtypes.Log {
 		// exactly one deviation from a well-formed registration (0 = none):
 		//  1-4 other operator lists | 5 wrong shares length | 6 signed for a future nonce | 7 replayed nonce |
 		//  8 signed for the other owner | 9 invalid signature | 10 own key undecryptable | 11 own key mismatching
+		//  12 no deviation, but the (valid) operator list is not in ascending order
 		mut := 0
 		if ds := int(zzParam("DEVSET")); ds > 0 && len(p.events) == zzFirstGenerated {
-			mut = (ds-1)*4 + zzChoose("va-deviation", 4) // the run fixes which third of the deviations the first event uses
+			nd := 4
+			if ds == 3 {
+				nd = 5
+			}
+			mut = (ds-1)*4 + zzChoose("va-deviation", nd) // the run fixes which third of the deviations the first event uses
 		} else {
-			mut = zzChoose("va-deviation", 12)
+			mut = zzChoose("va-deviation", 13)
 		}
 		ids := zzIDLists[0]
 		if mut >= 1 && mut <= 4 {
 			ids = zzIDLists[mut]
+		}
+		if mut == 12 {
+			ids = zzIDLists[5]
 		}
 		n := len(ids)
 		shares := make([]byte, 96+48*n+256*n)
@@ -549,6 +570,11 @@ func zzCompare(nd *zzNode, ref *zzRef, label string) {
 				ids = append(ids, o.OperatorID)
 			}
 			zzAssert(zzSameIDs(ids, want.ids), label+"-share-committee")
+			for _, o := range got.Committee {
+				// the share data of the event is positional: every committee member keeps the public share that came
+				// at its own position
+				zzAssert(string(o.PubKey) == string(zzSharePK(o.OperatorID, vi)), label+"-share-committee-member-has-its-own-public-share")
+			}
 		}
 	}
 	for _, owner := range []ethcommon.Address{zzOwnerA, zzOwnerB} {
